@@ -41,6 +41,27 @@ def liquidation(ctx):
     p = ctx.p
     w = sym_portfolio(ctx, p["shape"], same_index=p.get("same_index", False))
     m = w.market
+    n_prior = 0
+    if p.get("prior_liquidation"):
+        # an EARLIER bar in which this very market object liquidated every debt token of the shape (concrete, unhealthy at HF 0.97);
+        # whatever the market remembers of it must not keep it from liquidating again in the bar under test
+        from ..harness import Reject
+
+        sym_state, sym_row = w.raw(), (dict(w.row["li"]), dict(w.row["bi"]), dict(w.price))
+        one = {n: D(1) for n in w.names}
+        colls = [n for n, (md, _) in p["shape"].items() if md == "C"]
+        debts = [n for n, (_, d) in p["shape"].items() if d]
+        lt_sum = sum((w.risk[n]["lt"] for n in colls), D(0))
+        w.set_row(one, one, one)
+        w.install_state({n: (D(1), True) for n in colls}, {n: lt_sum / len(debts) / D("0.97") for n in debts})
+        m.update()
+        if not any(type(a).__name__ == "LiquidationAction" for a in w.actions):
+            raise Reject("the prior bar did not liquidate")
+        m._supplies.clear()
+        m._borrows.clear()
+        w.set_row(*sym_row)
+        w.install_state(sym_state["sup"], sym_state["bor"])
+        n_prior = len(w.actions)
     if p.get("warm"):
         warm_views(m)
     st0 = w.raw()
@@ -67,7 +88,7 @@ def liquidation(ctx):
     finally:
         del m._do_liquidate
     st1 = w.raw()
-    acts = [a for a in w.actions if type(a).__name__ == "LiquidationAction"]
+    acts = [a for a in w.actions[n_prior:] if type(a).__name__ == "LiquidationAction"]
     ctx.outcome(f"liquidation-steps:{len(acts)}")
     healthy0 = t0["LT"] >= t0["B"]
     # --- iff
@@ -160,5 +181,7 @@ def scenarios(tier):
                 witness_cap=40,
             )
         )
+    for n in ("1c1d", "1c2d") if tier == "quick" else ("1c1d", "1c2d", "2c1d", "2c2d"):
+        out.append(Scenario(f"liquidation/{n}/after_a_liquidation_in_an_earlier_bar", liquidation, params=dict(shape=SHAPES[n], warm=False, prior_liquidation=True), shadows=SHADOWS, entry=("AaveV3Market.update", "_liquidate", "_do_liquidate", "set_market_status"), expect_outcomes=("liquidation-steps:0", "liquidation-steps:1"), max_paths=3000, time_budget_s=400, witness_cap=20))
     out.append(Scenario("liquidation/1c1d/warm", liquidation, params=dict(shape=SHAPES["1c1d"], warm=True), shadows=SHADOWS, entry=("update",), max_paths=2000))
     return out
